@@ -152,6 +152,15 @@ PROPS = {
         "level_note": "Trusted: Lean kernel; model Chain/BridgeClaim.lean; the ABI decoding of the report value and the bech32 check enter the model as inputs computed by the harness with go-ethereum / the SDK directly; aggregate/flag bookkeeping is the oracle model's (C07/C08).",
         "trusted": ["model Chain/BridgeClaim.lean", "harness fam_claim_test.go (mock oracle/bank), fam_deposit_test.go (real app)"],
     },
+    "C16": {
+        "props_module": "LayerModel.Props.C16",
+        "families": [("valsetchain", 64, 1500, "chain")],
+        "gen": ["facts", "formulas", "sol:scan"],
+        "rule": "valsetchain: staking histories (real app, 1-5 genesis validators, joins, exits, delegations at the 5 % line, silent validators, gaps to 15 days) in which at least one checkpoint was created by a power shift and at least one step was accepted by the contract model with the stored signatures; distinct = distinct histories",
+        "level_text": "Theorems for every staking validator list, block time and history: the bridge set is a permutation of the validators with a registered EVM address and non-zero consensus power, ordered by descending power then address (total order proved), never empty; the end blocker adds a checkpoint exactly when none is saved, the last one is stale (two weeks, both sides offset by 1 s) or the set changed with PowerDiff >= 5 % and never alters earlier ones; PowerDiff is the relative sum of absolute power changes; by induction over end blocks: indexes contiguous, timestamps strictly increasing, threshold = floor(2*total/3), slot count = size of the previous set; for consecutive checkpoints and ANY hash functions the contract's update rule accepts whenever one slot per previous member is supplied, present signatures verify and signers hold > 2/3 of the previous power, ending exactly in the next checkpoint's state. The contract model is tied to BlobstreamO.sol by a regenerated condition/flow table proved equal to the modelled one. Tie to the chain: the real app runs generated staking histories; after every block the bridge collections are compared with the model's end blocker fed with the staking validators, and the statement runs as monitor on the implementation's data (real keccak/ABI hashes recomputed by the Lean model, every stored signature ecrecovered against its slot's member, acceptance by the contract model with the stored signatures).",
+        "level_note": "Trusted: Lean kernel; model Chain/BridgeValset.lean; the Solidity scanner (regex skeleton of the two functions); secp256k1 recovery in the harness (go-ethereum) for the validity marks; the EVM-clock staleness guard of _checkValidatorSignatures (relayer liveness) and the 100-validator upper range are outside the explored space (theorems are size-independent, histories use up to 8 validators).",
+        "trusted": ["model Chain/BridgeValset.lean", "extract/sol_scan.py", "harness chain_test.go, fam_valset_test.go"],
+    },
     "C17": {
         "props_module": "LayerModel.Props.C17",
         "families": [("proposal", 96, 2500, "chain")],
